@@ -120,8 +120,23 @@ def case_grids(case):
 
 
 def case_global_interval(case):
+    """the disparity axis of the cost volume: int(nanmin), int(nanmax) of the grids (get_min_max_from_grid; int()
+    rounds a fractional bound toward zero)"""
     gmin, gmax = case_grids(case)
-    return min(min(r) for r in gmin), max(max(r) for r in gmax)
+    return int(min(min(r) for r in gmin)), int(max(max(r) for r in gmax))
+
+
+def fractional_grids(rng, case):
+    """the same case with per-pixel bounds that are multiples of 1/4 pixel (exact in float32): the grids that the
+    multiscale step builds from refined disparities, or that are read from float files"""
+    rows, cols = case["rows"], case["cols"]
+    dmin, dmax = case["disp"]
+    if dmax <= dmin:
+        dmax = dmin + 2
+    q = lambda lo, hi: rng.randrange(int(lo * 4), int(hi * 4) + 1) / 4.0
+    gmin = [[q(dmin, dmax) for _ in range(cols)] for _ in range(rows)]
+    gmax = [[q(gmin[r][c], dmax) for c in range(cols)] for r in range(rows)]
+    return dict(case, disp=[dmin, dmax], grids=(gmin, gmax), fractional=True)
 
 
 def band_index(case):
